@@ -441,7 +441,9 @@ static bool need_space(Token *prev, Token *tok) {
   if (a_word && (b_word || b == '"' || b == '\''))
     return true;
   if (prev->kind == TK_PP_NUM || prev->kind == TK_NUM) {
-    if (b == '.' || ((b == '+' || b == '-') && strchr("eEpP", a)))
+    // A preprocessing number absorbs letters, digits, periods and
+    // signs after an exponent letter.
+    if (b_word || b == '.' || ((b == '+' || b == '-') && strchr("eEpP", a)))
       return true;
   }
   if (a == '.' && (isdigit(b) || b == '.'))
